@@ -530,6 +530,23 @@ def _db_jagged(values):
     return len(shapes) != 1
 
 
+def _stored_type(values):
+    """The type a placeholder-scheme column is stored as: that of its first non-None entry (element type for rows)."""
+    np = _np()
+    first = next((v for v in values if v is not None), None)
+    if first is None or isinstance(first, dict):
+        return None
+    if isinstance(first, np.ndarray):
+        return first.dtype.type if first.dtype.kind != "O" else None
+    if _is_seq(first):
+        try:
+            flat = np.array(first)
+        except ValueError:
+            return None
+        return flat.dtype.type if flat.dtype.kind != "O" else None
+    return type(first)
+
+
 def known_shape(values, route):
     """Signature of the known candidate defect this column triggers, else None.
 
@@ -550,14 +567,7 @@ def known_shape(values, route):
     if not f["none"] or f["allnone"] or f["dict"]:
         return None
     # placeholder scheme: the first non-None entry decides the stored type
-    first = next(v for v in values if v is not None)
-    if isinstance(first, np.ndarray):
-        ftype = first.dtype.type
-    elif _is_seq(first):
-        flat = np.array(first)
-        ftype = flat.dtype.type if flat.dtype.kind != "O" else None
-    else:
-        ftype = type(first)
+    ftype = _stored_type(values)
     if ftype is None:
         return None
     if isinstance(ftype, type) and issubclass(ftype, np.unsignedinteger) and EXCLUDE_KNOWN.get(SIG_UNSIGNED):
@@ -571,22 +581,10 @@ def known_shape(values, route):
                 # the int64 placeholder, before everything is cast back to the first row's integer type
                 if np.array(v).dtype.kind == "f":
                     return SIG_CAST_FIRST
-            elif isinstance(v, (int, float, np.integer, np.floating)) and not isinstance(v, (bool, np.bool_)):
-                # a number that the first entry's integer type cannot hold exactly (non-integral, negative for an
-                # unsigned type, out of range): the cast to the first entry's type changes it
-                if isinstance(v, (int, np.integer)):
-                    iv = int(v)  # exact: float(v) would round 64-bit magnitudes out of range
-                else:
-                    fv = float(v)
-                    if not math.isfinite(fv):
-                        continue  # NaN/inf among integers: not judged here
-                    if fv != math.floor(fv):
-                        return SIG_CAST_FIRST
-                    iv = int(fv)
-                if ftype is not int:
-                    info = np.iinfo(ftype)
-                    if not (info.min <= iv <= info.max):
-                        return SIG_CAST_FIRST
+            elif not _survives_cast(ftype, v):
+                # a number that the first entry's integer type cannot hold exactly (non-integral, non-finite, negative
+                # for an unsigned type, out of range): the cast to the first entry's type changes it
+                return SIG_CAST_FIRST
     if ftype in (np.float16, np.float32):
         # same call site (data.astype(type of the first non-None entry)), reachable since NONE_MAP knows float16/float32
         # (cbec4df): any other entry - scalar, or element of a row after the rows were stacked with np.array() - that the
@@ -601,10 +599,23 @@ def known_shape(values, route):
 
 
 def _survives_cast(ftype, x):
-    """True when the number ``x`` is unchanged by a cast to the real type ``ftype`` (NaN stays the unset marker)."""
+    """True when the number ``x`` is unchanged by a cast to the integer or real type ``ftype`` (for a real target NaN
+    stays the unset marker; an integer target holds neither NaN nor inf)."""
     np = _np()
     if x is None or isinstance(x, (bool, np.bool_, str)):
         return True
+    if ftype is int or (isinstance(ftype, type) and issubclass(ftype, np.integer)):
+        if isinstance(x, (int, np.integer)):
+            iv = int(x)  # exact: float(x) would round 64-bit magnitudes out of range
+        elif isinstance(x, (float, np.floating)):
+            fx = float(x)
+            if not math.isfinite(fx) or fx != math.floor(fx):
+                return False
+            iv = int(fx)
+        else:
+            return True
+        info = np.iinfo(np.int64 if ftype is int else ftype)
+        return info.min <= iv <= info.max
     with np.errstate(all="ignore"):
         if isinstance(x, (float, np.floating)):
             fx = float(x)
@@ -619,10 +630,22 @@ def _survives_cast(ftype, x):
 
 
 def avoid_documented_sentinel(values, out):
-    """Replace the documented placeholders (integer min+2 / max-2, the string '<!None!>') by harmless values in a
-    column that goes through the placeholder scheme."""
+    """Replace the documented placeholders by harmless values in a column that goes through the placeholder scheme.
+
+    The placeholder is that of the type the column is STORED as - the type of its first non-None entry: iinfo.min+2
+    for a signed, iinfo.max-2 for an unsigned integer type ('<!None!>' for text) - whatever the type of the entry that
+    happens to hold that value ([uint8 0, None, 253] stores 253 as uint8, where it is the marker)."""
     np = _np()
     hit = []
+    marker = _sentinel_of(_stored_type(values))
+
+    def is_marker(x):
+        if marker is None or isinstance(x, (bool, np.bool_)) or not isinstance(x, (int, float, np.integer, np.floating)):
+            return False
+        if isinstance(x, (float, np.floating)):
+            fx = float(x)
+            return math.isfinite(fx) and fx == math.floor(fx) and int(fx) == marker
+        return int(x) == marker
 
     def fix(v):
         if v is None or isinstance(v, dict):
@@ -639,16 +662,16 @@ def avoid_documented_sentinel(values, out):
                     v[v == "<!None!>"] = "x"
                     hit.append(1)
                 return v
-            s = _sentinel_of(v.dtype.type)
-            if s is not None and (v == s).any():
-                v = v.copy()
-                v[v == s] = 0
-                hit.append(1)
+            if v.dtype.kind in "iuf" and v.size:
+                mask = np.array([is_marker(x) for x in v.ravel()], dtype=bool).reshape(v.shape)
+                if mask.any():
+                    v = np.array(v)
+                    v[mask] = 0
+                    hit.append(1)
             return v
         if isinstance(v, (list, tuple)):
             return type(v)(fix(x) for x in v)
-        s = _sentinel_of(type(v))
-        if s is not None and int(v) == s:
+        if is_marker(v):
             hit.append(1)
             return type(v)(0)
         return v
